@@ -338,7 +338,7 @@ def machine_factory(ctx, tier):
     return Machine
 
 
-SUB = MachineSub("histories", machine_factory, replay, quick=3000, thorough=30000, steps_quick=14, steps_thorough=25)
+SUB = MachineSub("histories", machine_factory, replay, quick=6000, thorough=60000, steps_quick=14, steps_thorough=25)
 
 
 def subchecks():
